@@ -20,8 +20,8 @@ TraceInit == l = 1
 TraceNext == /\ l <= Len(Trace) /\ l' = l + 1
              /\ LET e == Trace[l]  v == Judge(e) IN
                   IF v = "" THEN TRUE
-                  ELSE IF SubSeq(v, 1, 2) = "M:" THEN PrintT(<<"WARN", l, e.case, v>>)
-                  ELSE PrintT(<<"FAIL", l, e.case, v>>)
+                  ELSE IF SubSeq(v, 1, 2) = "M:" THEN PrintT("WARN|" \o ToString(l) \o "|" \o e.case \o "|" \o v \o "|")
+                  ELSE PrintT("FAIL|" \o ToString(l) \o "|" \o e.case \o "|" \o v \o "|")
 TraceSpec == TraceInit /\ [][TraceNext]_l
-Consumed == (l = Len(Trace) + 1) => PrintT(<<"CONSUMED", Len(Trace)>>)
+Consumed == (l = Len(Trace) + 1) => PrintT("CONSUMED|" \o ToString(Len(Trace)))
 =============================================================================
